@@ -22,6 +22,7 @@ THEOREMS = [
     "Ural.Props.C17.links_order",
     "Ural.Props.C17.links_complete",
     "Ural.Props.C17.links_are_urls_partial",
+    "Ural.Props.C17.links_are_urls",
     "Ural.Props.C17.links_should_follow_partial",
     # part A with the parameters INSTANTIATED (Props/C17Concrete.lean): is_url / urljoin /
     # canonicalize_url are the Lean models, only the idna codec and the TLD table stay outside
@@ -106,18 +107,15 @@ ASSUMPTIONS = [
     "the structured-document theorem is about well-formed documents (an href does not contain its own quote, nor ASCII whitespace / '>' / a leading quote when unquoted; no '<' inside attribute text, hrefs or text; no further ' href=' after the href; scripts are closed)",
 ]
 UNPROVED = (
-    "'every yielded link is accepted by is_url / should_follow_href' with canonicalize=True is a "
-    "theorem about the concrete models (links_are_urls_concrete, links_should_follow_concrete, from "
-    "canon_preserves_is_url) on the class ResolvedInRegion (every resolved href has an ASCII scheme and "
-    "no '@' behind its authority) and for an idna decoder that maps host labels "
-    "to host labels; OUTSIDE that class the clause is FALSE, on the models (theorems "
-    "canon_not_preserving_outside_region / _bad_puny) and on the implementation (KF-C17-3 userinfo of the "
-    "patterns reaching an '@' behind the authority, KF-C17-4 punycode label decoding to a label with a "
-    "leading / trailing hyphen, KF-C17-5 U+0130 lower-casing to two characters; one patch: "
-    "notes/fixes/links-from-html-rechecks-canonical-url.diff; a fourth class found on the way, brackets in "
-    "the userinfo, was repaired in /repo by ca9f3e6 and needs no hypothesis any more). "
-    "Not proved: that the parser models equal CPython's urlsplit / urljoin (sampled), what html.unescape "
-    "computes (parameter of part B), the idna codec and the TLD table (shipped)."
+    "Nothing of the statement is left to the oracle alone for the model: since /repo 6e8a1b4 links_from_html "
+    "tests is_url again after canonicalize_url, so 'every yielded link is accepted by is_url' is a theorem "
+    "for ARBITRARY parameters (links_are_urls, no hypothesis). The preservation theorem about the concrete "
+    "models stays (canon_preserves_is_url on the class region: ASCII scheme, no '@' behind the authority, "
+    "idna decoder mapping host labels to host labels) together with the witnesses that outside that class "
+    "canonicalize_url does NOT preserve is_url (canon_not_preserving_outside_region / _bad_puny; the former "
+    "findings KF-C17-3/4/5, whose inputs stay in the corpus: with the fix such links are dropped, not yielded). "
+    "Not proved: that the parser models equal CPython's urlsplit / urljoin (compared on every run), what "
+    "html.unescape computes (parameter of part B), the idna codec and the TLD table (shipped)."
 )
 
 # ----------------------------------------------------------------------------------------
@@ -1281,7 +1279,7 @@ def theorem_contradicted(case, failure):
 
 # (kf_astral_idn / kf_one_digit_port are retired: repaired in /repo, a failure of these classes is a regression again)
 # (kf_canonical_link_unparsable, KF-C17-6, is retired too: repaired in /repo by ca9f3e6)
-KF_PREDICATES = [kf_userinfo_crosses_authority, kf_puny_label_hyphen, kf_dotted_capital_i]
+KF_PREDICATES = []  # KF-C17-3/4/5 repaired by /repo 6e8a1b4 (their witnesses stay in the corpus)
 
 
 # ----------------------------------------------------------------------------------------
